@@ -703,16 +703,23 @@ def job_tables(cfg):
             errs = {}
             h = 1e-6
             bad = False
-            for k, nm in enumerate(("I1", "I2", "I3")):
-                tab = np.asarray(getattr(NumC(cv), f"Compute_d{nm}dC")()).reshape(-1)
+            T1f, T2f = np.asarray(T1, dtype=float), np.asarray(T2, dtype=float)
+            fibres = {"I1": (), "I2": (), "I3": (), "I4": (T1f,), "I6": (T2f,), "I8": (T1f, T2f)}
+            for nm, targs in fibres.items():
+                targs = tuple(FeArray.asfearray(t) for t in targs)
+                tab = np.asarray(getattr(NumC(cv), f"Compute_d{nm}dC")(*targs)).reshape(-1)[:nd]
                 fd = np.zeros(nd)
                 for a in range(nd):
                     vp, vm = cv.copy(), cv.copy()
                     vp[a] += h
                     vm[a] -= h
-                    fd[a] = (float(np.asarray(getattr(NumC(vp), f"Compute_{nm}")()).reshape(-1)[0]) - float(np.asarray(getattr(NumC(vm), f"Compute_{nm}")()).reshape(-1)[0])) / (2 * h)
+                    fd[a] = (float(np.asarray(getattr(NumC(vp), f"Compute_{nm}")(*targs)).reshape(-1)[0]) - float(np.asarray(getattr(NumC(vm), f"Compute_{nm}")(*targs)).reshape(-1)[0])) / (2 * h)
                 errs[f"max|d{nm}dC - finite difference|"] = float(np.abs(tab - fd).max())
                 bad = bad or errs[f"max|d{nm}dC - finite difference|"] > 1e-5
+                if targs:  # fibre invariants are linear in C: their second tables are zero
+                    h2 = np.asarray(getattr(NumC(cv), f"Compute_d2{nm}dC")())
+                    errs[f"max|d2{nm}dC|"] = float(np.abs(h2).max())
+                    bad = bad or errs[f"max|d2{nm}dC|"] > 1e-9
             return bad, {"C_kelvin_mandel": cv.tolist(), **errs}
 
         for k in range(6):
